@@ -101,6 +101,12 @@ func (p *Promise) Force(ctx context.Context) (ok bool, err error) {
 			// If cut, we eliminate other possibilities.
 			if p.cutParent != nil {
 				stack.popUntil(p.cutParent)
+				// The cut parent stays on the stack, exhausted, as a marker:
+				// a later cut of the same clause body must stop there, too.
+				if p.cutParent != &dummyCutParent {
+					p.cutParent.delayed = nil
+					stack = append(stack, p.cutParent)
+				}
 				p.cutParent = nil // we don't have to do this again when we revisit.
 			}
 
